@@ -64,6 +64,31 @@ fn run_w<const B: usize, const L: usize>(scn: &Obj) -> Value {
             let base = j_to_u64(&scn["base"]);
             ev.rec("le", || a.to_base_le(base).map(|d| Bn(d as u128)).collect::<Vec<_>>());
             ev.rec("be", || a.to_base_be(base).map(|d| Bn(d as u128)).collect::<Vec<_>>());
+            // the same digits through the Iterator adaptors (skip / step_by / nth / count / last go through `nth`, `size_hint`
+            // and friends, which an implementation may override): ten digit sequences per direction
+            fn adaptors<I: Iterator<Item = u64>>(mk: &dyn Fn() -> I) -> Vec<Vec<Bn>> {
+                let bn = |v: Vec<u64>| v.into_iter().map(|d| Bn(d as u128)).collect::<Vec<_>>();
+                let len = mk().count();
+                let mut out = vec![];
+                out.push(bn(mk().skip(1).collect()));
+                out.push(bn(mk().skip(len).collect()));
+                out.push(bn(mk().skip(len + 1).collect()));
+                out.push(bn(mk().step_by(2).collect()));
+                let mut it = mk();
+                out.push(bn(it.nth(1).into_iter().collect()));
+                out.push(bn(it.collect()));
+                let mut it = mk();
+                out.push(bn(it.nth(len + 2).into_iter().collect()));        // past the end: None, and everything is consumed
+                out.push(bn(it.collect()));
+                out.push(bn(mk().last().into_iter().collect()));
+                let (lo, hi) = mk().size_hint();
+                out.push(vec![Bn(len as u128), Bn((lo <= len) as u128), Bn(hi.map_or(true, |h| h >= len) as u128)]);
+                out
+            }
+            if base >= 2 {
+                ev.rec("le_it", || adaptors(&|| a.to_base_le(base)));
+                ev.rec("be_it", || adaptors(&|| a.to_base_be(base)));
+            }
         }
         "frombase" => {
             let base = j_to_u64(&scn["base"]);
